@@ -405,3 +405,52 @@ def _read_conditions(chk, rd, rid):
                     "XPath of a later sibling's diagnostics selects the wrong element" if name == "empty element"
                     else "the path no longer mirrors the open elements"),
                    "%s:%s" % (rd["file"], rd["line"]))
+
+
+# ---------------------------------------------------------------------------------------------- R-GAP
+def run_gap(chk, F, CG, rid="R-GAP"):
+    """Blocks are separated in the position index by a gap of one position: the (exclusive) end of the last token of
+    a block is then still a position of that block and not the first position of the next entry.  Every overload of
+    PositionTracker::setPath must therefore advance `position` exactly once - itself or through the overload it
+    delegates to - before it registers the new entry."""
+    chk.rule(rid, "every overload of PositionTracker::setPath increments `position` exactly once on every path (counting "
+                  "the overload it delegates to) before calling add_position")
+    fns = F.fns("UTAP::PositionTracker::setPath")
+    if len(fns) < 1:
+        raise AnalysisBroken("PositionTracker::setPath not found")
+
+    def count(fn, depth=0):
+        """(increments, registers) on the straight-line body; None if branching makes it path dependent."""
+        inc = reg = 0
+        for st in fn["body"].get("s", []):
+            if st.get("k") in ("if", "for", "while", "switch", "do", "try"):
+                if any(x.get("k") == "member" and x.get("name") == "position" for x in walk(st)):
+                    return None
+                continue
+            for x in walk(st):
+                if x.get("k") == "un" and x.get("op") == "++" and (x["e"].get("k") == "member" and x["e"].get("name") == "position"):
+                    if reg:
+                        return (inc + 1, -1)        # incremented after registering
+                    inc += 1
+                if x.get("k") == "bin" and x.get("op") in ("+=",) and x["lhs"].get("name") == "position":
+                    inc += 1 if (x["rhs"].get("k") == "int" and x["rhs"].get("v") == 1) else 99
+                if x.get("k") == "call" and x.get("name") == "add_position":
+                    reg += 1
+                if x.get("k") == "call" and x.get("name") == "setPath" and depth < 3 and \
+                        (x.get("recv") is None or x["recv"].get("k") == "this"):
+                    for t in CG.targets(x):
+                        if t is not fn and t.get("body") is not None:
+                            r = count(t, depth + 1)
+                            if r is None:
+                                return None
+                            inc += r[0]
+                            reg += max(r[1], 0)
+        return (inc, reg)
+    for fn in fns:
+        r = count(fn)
+        key = "setPath(%s)" % ", ".join(p.get("t", "?") for p in fn["params"])[:70]
+        chk.ob(rid, key, r is not None and r == (1, 1),
+               "PositionTracker::%s advances `position` %s time(s) and registers %s entry(ies): without the one-position "
+               "gap the end of a diagnostic that reaches the last character of a block resolves to the NEXT entry (the "
+               "template marker: /nta/template[k] line 1 column 0)" %
+               (key, "?" if r is None else r[0], "?" if r is None else r[1]), "%s:%s" % (fn["file"], fn["line"]))
